@@ -9,7 +9,10 @@ proof side : lean/SarpyModel/Props/C12.lean (over the reals, every latitude / lo
              write them: Cardano step, sextic relation, factorisation identity, sign of the conjugate factor) inverts the forward
              map over the reals for latitude [-90, 90], longitude (-180, 180], height > -a(1-2e^2), validity flag and poles
              included: `inverse_exact : C12_inverse_exact`.
-tie        : the same generic definitions (lean/SarpyModel/Spec/Geo.lean) instantiated at Float (driver `geo ...`) are
+tie        : translator: translate/gen_geo.py regenerates Gen/Geo.lean from the AST of the imported geocoords.py (constants,
+             ecf_to_geodetic, geodetic_to_ecf, the NED / ENU matrices) on every run; Props/C12Bridge.lean proves Gen = Spec by rfl
+             for every scalar type, so a semantic change of the Python text breaks an obligation (then the oracles below search).
+             correspondence: the same generic definitions (lean/SarpyModel/Spec/Geo.lean) instantiated at Float (driver `geo ...`) are
              compared with sarpy.geometry.geocoords on a seeded grid; floats cross the line protocol as bit patterns;
              tolerances 1e-6 m / 1e-9 deg (the property's own figures), rounding noise is ~1e-9 m (3e-8 m at 1e8 m height)
 search     : direct oracles on the implementation alone: geodetic -> ECF -> geodetic round trip; a 50-digit evaluation of
@@ -45,8 +48,12 @@ REQUIRED = ['ned_matrix_orthogonal', 'enu_matrix_orthogonal', 'ned_matrix_det', 
             'cardano_sigma', 'heik_P_sextic', 'heik_factor', 'foot_quartic', 'heik_other_factor_neg', 'heik_R0_eq', 'heik_G_pos',
             'heik_chain', 'cE2_lt_small', 'domain_B', 'heikR0_exact', 'inverse_lat_height_exact', 'ecfValid_forward',
             'inverse_exact_on_domain', 'inverse_exact_at_poles', 'height_range_in_inverse_domain', 'inverse_exact',
-            'inverse_exact_on_surface', 'inverse_on_polar_axis', 'inverse_unique']
-PROOF_TARGETS = ['SarpyModel.Props.C12', 'SarpyModel.Props.C12Inj', 'SarpyModel.Props.C12Inv', 'SarpyModel.Drivers']
+            'inverse_exact_on_surface', 'inverse_on_polar_axis', 'inverse_unique',
+            # Props/C12Bridge.lean: Gen.Geo (regenerated from geocoords.py on every run) = Spec.Geo, by rfl
+            'gen_constants_eq', 'gen_geodeticToEcfLL_eq', 'gen_ecfValid_eq', 'gen_ecfToGeodeticLL_eq', 'gen_nedMatrix_eq',
+            'gen_enuMatrix_eq', 'gen_inverse_exact', 'gen_forward_injective']
+PROOF_TARGETS = ['SarpyModel.Props.C12', 'SarpyModel.Props.C12Inj', 'SarpyModel.Props.C12Inv', 'SarpyModel.Gen.Geo',
+                 'SarpyModel.Props.C12Bridge', 'SarpyModel.Drivers']
 
 TOL_M = 1e-6        # alarm: metres (positions, heights)
 TOL_DEG = 1e-9      # alarm: degrees (latitude, longitude)
@@ -242,7 +249,12 @@ def run(tier):
     from sarpy.geometry import geocoords as G
     chk = Check('C12', tier)
     rng = chk.rng
-    broken = chk.prove(PROOF_TARGETS, 'SarpyModel.Props.C12Inv', 'Sarpy.Props.C12', REQUIRED)
+    # translator: regenerate Gen/Geo.lean from the text of the imported geocoords.py (constants, both conversions, matrices)
+    import gen_geo
+    gen_info = gen_geo.generate(os.path.join(os.path.dirname(os.path.dirname(os.path.abspath(__file__))), 'lean', 'SarpyModel', 'Gen', 'Geo.lean'))
+    broken = chk.prove(PROOF_TARGETS, 'SarpyModel.Props.C12Bridge', 'Sarpy.Props.C12', REQUIRED, gen_info)
+    if gen_info['unsupported']:
+        broken.append('translator could not express: ' + json.dumps(gen_info['unsupported']))
     scale = 1 if tier == 'quick' else 25
     n_g, n_e, n_l = 8000 * scale, 4000 * scale, 2000 * scale
 
